@@ -490,7 +490,8 @@ func (d *Driver) handleGo(args []string) (quit bool) {
 		case "binc":
 			tc.binc = parseInt64(args[i+1])
 		case "depth":
-			depth := Depth(parseInt(args[i+1]))
+			// clamp before narrowing: Depth is 8 bits wide and the search never goes beyond MaxPlies
+			depth := Depth(min(parseInt(args[i+1]), MaxPlies))
 			opts = append(opts, search.WithDepth(depth))
 		case "nodes":
 			nodes := parseInt(args[i+1])
